@@ -1,5 +1,7 @@
 import Tengo.Proofs.VMRun
 import Tengo.Proofs.VMFrames
+import Tengo.Proofs.VMAlloc
+import Tengo.Proofs.VMTail
 import Tengo.Gen.Limits
 import Tengo.Gen.Opcodes
 /-!
@@ -66,6 +68,26 @@ theorem alloc_monotone_counts (code : Code) (keep fuel : Nat) (N : Nat) (M : Int
         · left; omega
         · right; omega) rfl rfl hn
 
+/-- The opcodes whose `case` in vm.go has an `allocs--` site (regenerated) are exactly those the model
+may count; each site is tested at once, before the store. -/
+theorem alloc_ops_match :
+    (Tengo.Gen.AllocSites.allocSites.filter (fun p => !p.2.isEmpty)).map Prod.fst = modelAllocOps :=
+  Tengo.Model.VM.alloc_ops_match
+
+theorem alloc_sites_tested :
+    Tengo.Gen.AllocSites.allocSites.all (fun p => p.2.all (fun s => s.2.1 && s.2.2.1 && !s.2.2.2)) = true :=
+  Tengo.Model.VM.alloc_sites_tested
+
+/-- In every state, no simple instruction outside that set is counted as an allocation … -/
+theorem only_listed_ops_allocate (code : Code) (f : Fn) (fr : Tengo.Model.VM.Frame) (ip : Int) (op : Nat) (r : Regs)
+    (hop : op ∉ simpleAllocOps) : PostX (execSimple code f fr ip op r) (fun o => o.alloc = false) :=
+  execSimple_noalloc code f fr ip op r hop
+
+/-- … and a return never is. -/
+theorem return_does_not_allocate (f : Fn) (ip : Int) (c : Core) :
+    PostX (execReturn f ip c) (fun o => ∀ c' a, o = .next c' a → a = false) :=
+  execReturn_noalloc f ip c
+
 /-! ## C06 / C05: the frame limit -/
 
 /-- Every configuration a run started by `VM.Run` reaches has `framesIndex ≤ MaxFrames`: recursion
@@ -110,6 +132,23 @@ theorem push_only_when_not_tail (code : Code) (c : Core) :
   | same h1 => rw [h1] at hlen; omega
   | push cr _ _ _ _ hc hnt => exact ⟨f, cr, hf, hc, hnt⟩
   | pop _ hc => rw [hc] at hlen; simp at hlen; omega
+
+/-- **C16 for verified programs: constant frame space AND constant operand-stack space.** In a program
+accepted by the whole-program verifier, a self call directly followed by a return (or POP, return)
+cannot fault and leaves the same callers, the same base pointer, `ip` at the start of the function,
+the operand stack empty (`sp = bp + NumLocals`) and the invariant intact — so the next iteration
+starts from a configuration of the same shape, for every recursion depth. -/
+theorem tail_call_constant_space {code : Code} {t : ProgTabs} {G : Nat} (hck : checkProgram code G t = true)
+    {c : Core} (hinv : Inv code t G c) (f : Fn) (cr : Nat)
+    (hf : code.fn c.cur.fnIdx = some f)
+    (hop : byteAt f (c.cur.ip + 1) = opCall)
+    (hcallee : calleeOf f c = .cfn cr)
+    (hself : c.cur.fnRef = some cr)
+    (hnext : byteAt f (c.cur.ip + 1 + 2 + 1) = opReturn ∨
+             (byteAt f (c.cur.ip + 1 + 2 + 1) = opPop ∧ byteAt f (c.cur.ip + 1 + 2 + 2) = opReturn)) :
+    SafeX (exec code c) (fun o => ∃ c', o = .next c' false ∧ c'.callers = c.callers ∧ c'.cur.bp = c.cur.bp ∧
+      c'.cur.fnRef = c.cur.fnRef ∧ c'.cur.ip = -1 ∧ c'.regs.sp = c.cur.bp + f.numLocals ∧ Inv code t G c') :=
+  self_tail_call_constant_space hck hinv f cr hf hop hcallee hself hnext
 
 /-! ### non-vacuity: a frame running `f` whose next instruction is `CALL 1 0; RET 1` on itself -/
 
